@@ -266,7 +266,7 @@ static lzma_index *build(const op *ops, int n, model *m, int check_each) {
 	return ix;
 }
 
-static op alpha[96]; static int nalpha;
+static op alpha[120]; static int nalpha;
 static long states, transitions, refused, histories, skipped; static h_set seen;
 static int shard, nshards; static long leafctr;
 static model mcur;
@@ -313,7 +313,7 @@ int main(int argc, char **argv) {
 		ADD(K_APPEND, 5, 0); ADD(K_APPEND, 8, 1); ADD(K_APPEND, 9, 0x7F); ADD(K_APPEND, 128, 0x80); ADD(K_APPEND, 0x4000, 0x4000);
 		ADD(K_APPEND, 4, 1); ADD(K_APPEND, 8, VMAX + 1); ADD(K_APPEND, UNP_MAX + 1, 1); ADD(K_APPEND, UNP_MAX, 1); ADD(K_APPEND, UNP_MAX - 64, VMAX);
 		ADD(K_APPEND, HUGE_UNP, VMAX / 2 + 1); ADD(K_APPEND, 6, VMAX);
-		ADD(K_PAD, 0, 0); ADD(K_PAD, 4, 0); ADD(K_PAD, 8, 0); ADD(K_PAD, 3, 0); ADD(K_PAD, UNP_MAX, 0); ADD(K_PAD, (lzma_vli)1 << 62, 0); ADD(K_PAD, VMAX + 1, 0);
+		ADD(K_PAD, 0, 0); ADD(K_PAD, 4, 0); ADD(K_PAD, 8, 0); ADD(K_PAD, 3, 0); ADD(K_PAD, UNP_MAX, 0); ADD(K_PAD, (lzma_vli)1 << 62, 0); ADD(K_PAD, VMAX + 1, 0); ADD(K_PAD, VMAX - 3, 0); ADD(K_PAD, VMAX - 31, 0); ADD(K_PAD, VMAX - 35, 0); ADD(K_PAD, VMAX - 39, 0); ADD(K_PAD, VMAX - 43, 0); ADD(K_PAD, VMAX - 51, 0);	/* the last four: within a few dozen bytes of the largest padding that still fits */
 		ADD(K_FLAGS, 0, 0); ADD(K_FLAGS, 1, 0); ADD(K_FLAGS, 4, 0); ADD(K_FLAGS, 10, 0); ADD(K_FLAGS, 15, 0); ADD(K_FLAGS, 16, 0);
 		for (int a = 0; a < 9; a++) ADD(K_CAT, a, 0);
 		ADD(K_DUP, 0, 0); ADD(K_ENCDEC, 0, 0); ADD(K_ENCDEC, 1, 0);
